@@ -230,3 +230,8 @@ Proof.
   intros sig exp H. unfold write_dec_f64, write_dec_ideal, write_dec, format_exponent, format_decimal, ideal_len.
   rewrite (ctz10_digits sig H), (format_significand_strip sig H), (format_integer_exact sig H). reflexivity.
 Qed.
+
+Theorem write_dec_layout : forall sig exp, 1 <= sig < 10 ^ 17 ->
+  write_dec_f64 sig exp = write_dec_ideal sig exp /\
+  ctz10 sig = Z.of_nat (length (canon_dec sig)).
+Proof. intros sig exp H. split; [apply write_dec_f64_ideal; exact H|apply ctz10_digits; exact H]. Qed.
